@@ -310,8 +310,35 @@ static void vec_exhaustive(int th) {
       }
 }
 
+// the 1024-bit digit oracle cross-checked against plain 128-bit arithmetic where the latter suffices
+static void oracle_selfcheck(void) {
+  rng_t r;
+  rng_seed(&r, G.seed, 4242);
+  for (int t = 0; t < 20000; t++) {
+    unsigned k = 1 + (unsigned)(rng_u64(&r) % 30);
+    uint64_t as = 1 + rng_u64(&r) % 3;  // k*as <= 90 bits, limbs < 2^30: T fits in 128 bits
+    int64_t a[3], dg[3];
+    i128 T = 0;
+    for (uint64_t i = 0; i < as; i++) {
+      a[i] = rng_sbits(&r, 30);
+      T = T * ((i128)1 << k) + a[i];
+    }
+    oracle_digits(k, a, as, dg);
+    // reconstruct: sum dg_i 2^(k(as-1-i)) == T modulo 2^(k*as), digits balanced
+    i128 R = 0;
+    for (uint64_t i = 0; i < as; i++) {
+      if (dg[i] < -((int64_t)1 << (k - 1)) || dg[i] >= ((int64_t)1 << (k - 1))) harness_fail("digit oracle self-check: digit out of range");
+      R = R * ((i128)1 << k) + dg[i];
+    }
+    i128 mod = (i128)1 << (k * as);
+    if (((T - R) % mod) != 0) harness_fail("digit oracle self-check: reconstruction mismatch (k=%u a_size=%" PRIu64 ")", k, as);
+  }
+  cnt("oracle_selfcheck_ok", 1);
+}
+
 void run_C05(void) {
   const int th = G.thorough;
+  oracle_selfcheck();
   static const uint64_t smallN[] = {2, 4, 8, 16, 32, 64};
   primitive_cases(th);
   vec_exhaustive(th);
